@@ -64,6 +64,12 @@ CHECKS = {
         technique=XH + "; " + SYMEX,
         ref="4 C14",
     ),
+    "C09": dict(
+        text="Bounded: (a) CrossHair kernels: _flatten_graph_node with symbolic dotted name (<= 7 chars) and k in 0..3 returns the first k+1 components; the level adjustment for module_path below root_path adds one level per path component (Confirmed over all paths). (b) Real NetworkxGraph(all_modules, imports, k) over depth-3/4 trees (5-7 modules), every subset of 9-12 candidate file imports, k in 0..depth and None: nodes, hierarchy and import edges equal the quotient of the full relation. (c) Verdict preservation: full graph and level-k graph (real constructor with level_limit=k, import edges = OR of the full relation's variables over the preimages) over the SAME symbolic relation; for all 12 shapes + anything aliases + 2-subject batches whose named modules lie at or above level k ('sub modules of' parents strictly above), subjects and objects unrelated: one z3 query 'exists relation: outcome class differs' per rule over the two decision-tree summaries.",
+        note="Trusted: SymDiGraph stubs (full and quotient; validated against the real constructor with level_limit on sampled paths and every model), CrossHair/z3. Imports from a package to its own descendants carry no variable (importers are files). Rules whose subject and object overlap are not claimed: an import inside one level-k module is dropped by the quotient by definition, so the property's consequence does not follow for them. The (b) instances are an exhaustive walk (degenerate). module_path below root_path end-to-end is in C04.",
+        technique=SYMEX + "; " + XH,
+        ref="4 C09",
+    ),
 }
 
 NOT_YET = {}
